@@ -321,6 +321,37 @@ def queue_finer_than_volume_step(ctx):
             ctx.count("queue_vs_volume_step_runs")
 
 
+def idle_with_pending_deliveries(ctx):
+    """the delay + volume simulator when nothing can fire any more while deliveries are still queued, reported on a grid finer
+    than the volume / queue step: A -> (fixed delay 6) B from 20 copies at rate 5 per copy - every A has fired by t = 3, no B
+    may be reported before t = 5.5, all 20 are there at the end."""
+    from bioscrape.types import Model, Volume
+    from bioscrape.simulator import ModelCSimInterface, ArrayDelayQueue, DelayVolumeSSASimulator
+    from bioscrape.random import py_seed_random
+    for step, H in ((0.5, 0.05), (0.5, 0.5), (0.25, 0.05)):
+        for seed in (1, 2):
+            case = {"scenario": "delay+volume simulator idle with pending deliveries", "volume_and_queue_step": step, "report_step": H, "seed": seed}
+            ctx.begin_case(case)
+            py_seed_random(seed)
+            M = Model(reactions=[(["A"], [], "massaction", {"k": 5.0}, "fixed", [], ["B"], {"delay": 6.0})], initial_condition_dict={"A": 20, "B": 0})
+            M.py_initialize()
+            sl = M.get_species_list()
+            tp = np.arange(0, 12.0 + H / 2, H)
+            I = ModelCSimInterface(M)
+            I.py_set_dt(step)
+            q = ArrayDelayQueue(np.zeros((1, int(12.0 / step) + 8)), step, 0.0)
+            v = Volume(); v.py_set_volume(1.0)
+            res = np.array(DelayVolumeSSASimulator().py_delay_volume_simulate(I, q, v, tp).py_get_result())
+            ctx.evaluated()
+            B = res[:, sl.index("B")]
+            early = [float(t) for t, b in zip(tp, B) if b > 0 and t < 6.0 - step - 1e-9]
+            if early or B[-1] != 20:
+                ctx.violation("delivery-time/idle-with-pending-deliveries", "volume/queue step %g, reporting step %g: B first reported at t=%s (not before %g), %g of 20 delivered by t=12"
+                              % (step, H, early[:1], 6.0 - step, B[-1]), case)
+                return
+            ctx.count("idle_with_pending_deliveries_runs")
+
+
 def shared_delayed_species(ctx):
     """delayed products that also take part in the immediate reaction (a species bound at firing and handed back with the
     product after the delay), listed twice, or both consumed and produced in the delayed part: fixed fuel, so the totals at
@@ -447,6 +478,7 @@ def run(ctx):
     zero_delay_law(ctx, 3000 if ctx.quick() else 200000, 5000 * ctx.seed + 3)
     queue_finer_than_volume_step(ctx)
     shared_delayed_species(ctx)
+    idle_with_pending_deliveries(ctx)
 
 
 def replay(ctx, obj):
